@@ -383,4 +383,15 @@ Section ProofsE.
   Proof.
     intros Ha Hf. rewrite <- (simplifyC_value cs rc r h Ha). rewrite (ham_free_offset cs rc h Hf). ring.
   Qed.
+
+  (* no call-history dependence: the k-th answer of any call sequence on the specialised energy is the answer
+     of that call alone *)
+  Lemma call_seq_pure cs rc h (pre post : list (bool * env)) (c : bool * env) dflt :
+    nth (length pre)
+        (call_seq A a0 a1 ahalf aadd amul asub anonneg apowm2 P ptab plog psqrt dims (simplifyC cs rc h) (pre ++ c :: post)) dflt
+    = linC (fst c) (simplifyC cs rc h) (snd c).
+  Proof.
+    unfold Model.call_seq. rewrite map_app. rewrite app_nth2 by (rewrite map_length; apply Nat.le_refl).
+    rewrite map_length, Nat.sub_diag. reflexivity.
+  Qed.
 End ProofsE.
